@@ -660,7 +660,9 @@ def c_range_check_even(nb):
     return c
 
 
-for nb_ in (0, 2, 4, 6, 8, 10, 12, 16, 18, 64, 250, 252, 254, 256):
+import os as _os
+_THOROUGH = _os.environ.get("VERIF_TIER") == "thorough"
+for nb_ in (tuple(range(0, 257, 2)) if _THOROUGH else (0, 2, 4, 6, 8, 10, 12, 16, 18, 64, 250, 252, 254, 256)):
     u = unit(f"range.range_check_even[bits={nb_}]", RG, "Composer::range_check_even", [SELF, ("witness", sym("witness")), ("num_bits", (lambda nb_=nb_: nb_))],
              c_range_check_even(nb_), consts=dict(CONSTS))
     u.extra_contracts = RANGE_CON
@@ -685,7 +687,7 @@ def c_range_check(nb):
     return c
 
 
-for nb_ in (0, 1, 2, 3, 9, 64, 253, 254, 255, 256):
+for nb_ in (tuple(range(0, 257)) if _THOROUGH else (0, 1, 2, 3, 9, 64, 253, 254, 255, 256)):
     u = unit(f"range.range_check[bits={nb_}]", RG, "Composer::range_check", [SELF, ("value", sym("value")), ("num_bits", (lambda nb_=nb_: nb_))],
              c_range_check(nb_), consts=dict(CONSTS), trace_only=True, tracked=("self",))
     u.extra_contracts = RANGE_CON
